@@ -184,6 +184,7 @@ class ParamOnlyDataParser(DataParser):
 
     @_(
         "param_introduction spec_parameters",
+        "param_introduction",
     )
     def param_data_input(self, p):
         ret = {}
